@@ -19,7 +19,9 @@ get_timestamp / VersionClock::next or is an API parameter; recovery folds in eve
 winner/loser decision. Not decided: numeric monotonicity over histories; clock-shard collisions.
 """
 DECIDED = ['u64::MAX is never installed into a clock shard', "clock fed only on published writes, under the guard, after the gate", "next() = max(wall, last+1) via CAS, returns the installed value",
-           "observe() only raises", "all automatic timestamps come from the clock", "recovery folds every scanned timestamp"]
+           "observe() only raises", "all automatic timestamps come from the clock", "recovery folds every scanned timestamp",
+           'every Record constructor stores its timestamp parameter',
+           'observe retries a lost compare-exchange']
 NOT_DECIDED = ["numeric monotonicity per key over histories", "clock-shard collisions"]
 ASSUMPTIONS = []
 
